@@ -63,7 +63,14 @@ func Harness_C08_WALBookkeeping() {
 			ckpts++
 			prev := w
 			w = w.Rotate(fs)
-			h := prev.Handle(flushed)
+			// the start marker is what the tables cover; the reader also has to cope with a marker
+			// ahead of the truncation point (records at or before it are still in the file and are
+			// skipped), which the interface allows although the database truncates in the same step
+			after := flushed
+			if lastCut > flushed && verif.Choose("marker-ahead-of-truncation", 2) == 1 {
+				after = lastCut
+			}
+			h := prev.Handle(after)
 			verif.Assert(prev.Save() == nil, "save-succeeds")
 			var got []Entry
 			for e, err := range NewReader(fs, h).All() {
@@ -75,7 +82,7 @@ func Harness_C08_WALBookkeeping() {
 			}
 			var want []verifOp
 			for _, op := range log {
-				if op.seq > flushed {
+				if op.seq > after {
 					want = append(want, op)
 				}
 			}
